@@ -266,7 +266,8 @@ class Interp:
             qn = qualname_of(f)
             c = self.contracts.get(qn)
             if c is not None:
-                return c(self, f, args, kwargs)
+                # a callee contract may raise the exceptions its contract allows
+                return self.native(c, [self, f, args, kwargs], {})
             if qn in self.natives:
                 return self.native(f, args, kwargs)
             mod = f.__module__ or ''
@@ -497,8 +498,9 @@ class Interp:
         if isinstance(f, ast.Attribute) and isinstance(f.value, ast.Name) and f.value.id in ('logger', 'logging'):
             self.dropped['logging'] = self.dropped.get('logging', 0) + 1
             return True
-        if isinstance(f, ast.Name) and f.id == 'print' and frame.qualname.endswith('QvmCpu._trap'):
-            self.dropped['print_in__trap'] = self.dropped.get('print_in__trap', 0) + 1
+        if isinstance(f, ast.Name) and f.id == 'print' and (frame.qualname.endswith('QvmCpu._trap') or
+                                                            frame.globals.get('__name__') == 'qvm.dbg'):
+            self.dropped['print_in__trap_or_debugger_ui'] = self.dropped.get('print_in__trap_or_debugger_ui', 0) + 1
             # evaluate the arguments for their safety obligations (KeyError on kwargs[...]) is done
             # separately: arguments are still evaluated, only the output is dropped
             for a in call.args:
